@@ -13,3 +13,8 @@ macro_rules! info { ($($t:tt)*) => { () } }
 macro_rules! warn { ($($t:tt)*) => { () } }
 #[allow(unused_macros)]
 macro_rules! error { ($($t:tt)*) => { () } }
+
+verus! {
+// the crate is checked for 64-bit targets (usize = u64), as built in this sandbox
+global size_of usize == 8;
+}
